@@ -1551,7 +1551,10 @@ class Palette(metaclass=_PaletteMeta):
         assert self._synced
         self.register_in_colors_conf(colors_conf)
         for accessor_name, synt_id in self._LOCAL_SYNTAX.items():
-            setattr(self, accessor_name, colors_conf.get_color(synt_id))
+            color_fmt = colors_conf.get_color(synt_id)
+            setattr(self, accessor_name, color_fmt)
+            # get_color() and make_report() read colors from this dictionary
+            self._local_colors[accessor_name] = (synt_id, color_fmt)
 
     @classmethod
     def register_in_colors_conf(cls, colors_conf):
